@@ -382,6 +382,30 @@ func genHistory(r *lib.Rng, fam string) []op {
 		}
 	case 2: // response before anything is queued
 		ops = append(ops, op{Kind: "response", ID: r.Intn(ids), Hash: r.Pick(0, 1), Status: pickStatus(r)})
+	case 3, 4: // a well-behaved client: packs are queued, every prompt is answered accepted -> (downloaded) -> final
+		k := r.Range(2, 4)
+		var qs []op
+		for i := 0; i < k; i++ {
+			q := genQueue(r, ids)
+			if fam != "modern" && q.ID == 0 {
+				q.ID = 1
+			}
+			qs = append(qs, q)
+			ops = append(ops, q)
+		}
+		for _, q := range qs {
+			final := r.Pick(0, 0, 0, 1, 2, 7)
+			if final != 1 {
+				ops = append(ops, op{Kind: "response", ID: q.ID, Hash: q.Hash, Status: 3})
+				if r.Bool() {
+					ops = append(ops, op{Kind: "response", ID: q.ID, Hash: q.Hash, Status: 4})
+				}
+			}
+			ops = append(ops, op{Kind: "response", ID: q.ID, Hash: q.Hash, Status: final})
+			if r.Chance(1, 4) {
+				ops = append(ops, genQueue(r, ids))
+			}
+		}
 	}
 	for len(ops) < n {
 		x := r.Intn(100)
@@ -416,7 +440,7 @@ func main() {
 	rng := lib.NewRng(f.Seed)
 	out := lib.NewOut("C27", f)
 	out.Imports = "From Verif Require Import Model.ResourcePack.\n"
-	out.Rule = "histories of 1..14 operations (queue 40% / response 45% / remove, clear 15%; ids from a pool of 2..4 incl. uuid.Nil, 8 response statuses weighted towards accepted/successful/declined; 3 of 8 histories start with a scenario: decline-then-queue, several packs of one id, response before any queue) on a fresh handler from resourcepack.NewHandler for protocols of all three families (legacy 47..754, 1.17-1.20.2 755..764, modern 765..774), with and without a backend in flight; every call in a goroutine with a 2 s watchdog (a call counts as stuck when it has not returned by then and its goroutine is parked, e.g. in sync.RWMutex.Lock; a merely starved goroutine is given up to 40 s); distinct = distinct (protocol, backend, history); non-trivial = at least 3 operations with a queue and a response among them"
+	out.Rule = "histories of 1..14 operations (queue 40% / response 45% / remove, clear 15%; ids from a pool of 2..4 incl. uuid.Nil, 8 response statuses weighted towards accepted/successful/declined; 5 of 8 histories start with a scenario: decline-then-queue, several packs of one id, response before any queue, a well-behaved client answering every prompt accepted/downloaded/final) on a fresh handler from resourcepack.NewHandler for protocols of all three families (legacy 47..754, 1.17-1.20.2 755..764, modern 765..774), with and without a backend in flight; every call in a goroutine with a 2 s watchdog (a call counts as stuck when it has not returned by then and its goroutine is parked, e.g. in sync.RWMutex.Lock; a merely starved goroutine is given up to 40 s); distinct = distinct (protocol, backend, history); non-trivial = at least 3 operations with a queue and a response among them"
 
 	var cases []*caseT
 	add := func(fam string, protos []int, n int) {
@@ -427,9 +451,9 @@ func main() {
 			cases = append(cases, c)
 		}
 	}
-	add("legacy", legacyProtos, f.Count(70))
-	add("legacy117", legacy117Protos, f.Count(90))
-	add("modern", modernProtos, f.Count(200))
+	add("legacy", legacyProtos, f.Count(110))
+	add("legacy117", legacy117Protos, f.Count(130))
+	add("modern", modernProtos, f.Count(120))
 
 	// execute (stuck calls cost the watchdog time each, so histories run concurrently)
 	var wg sync.WaitGroup
@@ -469,6 +493,33 @@ func main() {
 				tags = append(tags, "observed-panic")
 				break
 			}
+		}
+		prompts, reports, applied := 0, 0, false
+		for _, s := range c.steps {
+			for _, e := range s.Events {
+				if strings.HasPrefix(e, "(OReq") {
+					prompts++
+				} else if strings.HasPrefix(e, "(ORep") {
+					reports++
+				}
+			}
+			if len(s.Applied) > 0 {
+				applied = true
+			}
+		}
+		pb := "0"
+		switch {
+		case prompts >= 3:
+			pb = "3+"
+		case prompts > 0:
+			pb = strconv.Itoa(prompts)
+		}
+		tags = append(tags, c.fam+":prompts="+pb)
+		if reports > 0 {
+			tags = append(tags, c.fam+":backend-reports")
+		}
+		if applied {
+			tags = append(tags, c.fam+":pack-applied")
 		}
 		term := lib.App("Check.C27.mk", lib.N(uint64(c.proto)), lib.Bool(c.backend),
 			lib.ListOf(c.ops, func(o op) string { return o.coq() }),
